@@ -310,6 +310,15 @@ def run(ctx: Ctx) -> int:
         if py_sid_ok != tlc_sid_ok or py_sd_ok != tlc_sd_ok:
             raise MachineryError(f"spec (TLC) and harness/sdref.py disagree on {s!r}: tlc={cl} py=({py_sid_ok},{py_sd_ok})")
 
+    # "distinct SIDs give distinct bytes" follows from byte equality with the spec + the Injective / SidParse lemmas;
+    # a collision among rows TLC accepted would contradict the lemmas (machinery)
+    seen_bytes: dict[bytes, str] = {}
+    for row in rows:
+        if row["kind"] == "sid" and row["want"] == "canonical" and row["o1"] == "ok" and row["id"] not in bad:
+            prev = seen_bytes.setdefault(bytes(row["sid"]), _cps(row["s"]))
+            if prev != _cps(row["s"]):
+                raise MachineryError(f"two distinct SIDs accepted by the spec with equal bytes: {prev} {_cps(row['s'])}")
+
     # verdicts, grouped under stable keys
     groups: dict[str, list] = {}
     for rid, clauses in bad.items():
